@@ -95,6 +95,24 @@ func newMatchWorld() *matchWorld {
 			}
 		}
 	}
+	// contexts without a calling contract: the engine reports the zero hash as
+	// "calling script hash" there (the entry context), and no group of a caller
+	m.n.H["Z"] = util.Uint160{}
+	for _, cur := range hs {
+		for g := 0; g < 4; g++ {
+			for e := 0; e < 2; e++ {
+				s := &stubCtx{cur: cur, k: k, entry: e == 1, curG: [2]bool{g&1 != 0, g&2 != 0}}
+				w := where{Current: party{Hash: cur}, ByEntry: s.entry}
+				for i := 0; i < 2; i++ {
+					if s.curG[i] {
+						w.Current.Groups = append(w.Current.Groups, ks[i])
+					}
+				}
+				m.ctxs = append(m.ctxs, s)
+				m.ws = append(m.ws, w)
+			}
+		}
+	}
 	return m
 }
 
@@ -242,6 +260,18 @@ func runMatch(r *vk.Run, w1 int, cov map[string]any) {
 		evals.Add(m.checkTree(t, true, report))
 		trees.Inc()
 	}
+	// trees of depth <= 1 with a CalledByContract(zero hash) leaf: the zero hash is
+	// nobody's calling contract, not even where the engine reports it (entry context)
+	zl := append(matchLeaves(), &scond{Op: "byhash", Sym: "Z"})
+	zTrees := 0
+	for _, s := range append([]*scond{zl[len(zl)-1]}, depth1(zl, 2)...) {
+		if containsZ(s) {
+			evals.Add(m.checkTree(m.mk(s), true, report))
+			trees.Inc()
+			zTrees++
+		}
+	}
+	cov["match_zero_caller_trees"] = zTrees
 	// depth 2: root over children from t1, at least one child of depth 1.
 	// job i: first child t1[i].
 	r.Parallel(len(t1), func(i int) {
